@@ -218,7 +218,7 @@ impl<'a> World<'a> {
             }
             return None;
         }
-        let (dm, chunks) = match r1 {
+        let (dm, mut chunks) = match r1 {
             Ok(x) => x,
             Err(e) => {
                 self.rep.violate("C14", "encrypt_failed", &[("len", data.len().to_string())], format!("encrypt of {} bytes failed: {e}", data.len()));
@@ -255,6 +255,9 @@ impl<'a> World<'a> {
             }
         }
         self.rep.probe_n("chunks_produced", 1 + chunks.len() as u64);
+        // encrypt() returns the chunks in the completion order of its (real) thread pool: the harness orders
+        // them itself so that "chunk number n" means the same thing in every execution of a plan
+        chunks.sort_by_key(|c| c.name().0);
         Some((dm, chunks))
     }
 
